@@ -1200,3 +1200,63 @@ pub fn compare(input: &str, output: &str, o: &CmpOpts) -> Result<CmpStats, Misma
     let b = canonical(output, o);
     compare_tokens(&a, &b, o)
 }
+
+// ---------------------------------------------------------------------------------------------
+// import leaves per run (C10)
+
+/// A leaf of an import: (attributes, visibility, path, alias).
+pub type LeafKey = (Vec<String>, Vec<String>, String, Option<String>);
+
+/// Splits `src` into maximal runs of consecutive `use` items (a run ends at any other token)
+/// and returns the leaves of every run, plus the number of other items seen between runs.
+/// `None` if some `use` item cannot be expanded.
+pub fn use_runs(src: &str, edition_2015: bool) -> Option<Vec<Vec<LeafKey>>> {
+    let o = CmpOpts::default();
+    let v = tokens(src, &o);
+    let m = match_delims(&v);
+    let mut runs: Vec<Vec<LeafKey>> = vec![];
+    let mut cur: Vec<LeafKey> = vec![];
+    let mut i = 0;
+    let mut last_end = 0usize;
+    while i < v.len() {
+        if v[i].is("use") && !v.get(i + 1).map(|t| t.is("<")).unwrap_or(false) {
+            let mut depth = 0i32;
+            let mut j = i;
+            let mut end = None;
+            while j < v.len() {
+                match v[j].k {
+                    K::Open => depth += 1,
+                    K::Close => depth -= 1,
+                    _ => {}
+                }
+                if depth == 0 && v[j].is(";") {
+                    end = Some(j);
+                    break;
+                }
+                j += 1;
+            }
+            let end = end?;
+            let (attrs_start, vis_start) = item_prefix_start(&v, &m, i);
+            if attrs_start > last_end && !cur.is_empty() {
+                // something else stands between the previous import and this one
+                runs.push(std::mem::take(&mut cur));
+            }
+            let attrs = toks_str(&v[attrs_start..vis_start]);
+            let vis = toks_str(&v[vis_start..i]);
+            for (path, alias) in expand_use(&v[i + 1..end])? {
+                let path = if edition_2015 { path.trim_start_matches("::").to_owned() } else { path };
+                cur.push((attrs.clone(), vis.clone(), path, alias));
+            }
+            last_end = end + 1;
+            i = end + 1;
+            continue;
+        }
+        i += 1;
+    }
+    // trailing tokens after the last import do not matter; empty runs are dropped
+    if !cur.is_empty() {
+        runs.push(cur);
+    }
+    let _ = last_end;
+    Some(runs)
+}
